@@ -48,6 +48,8 @@ type Violation struct {
 	// Faults, when set, is the exact fault plan of a sweep that produced the
 	// violation; the replay then carries just that plan.
 	Faults []sched.Fault `json:"faults,omitempty"`
+	// Schedule, when set, is the explicit schedule the run took.
+	Schedule []int `json:"schedule,omitempty"`
 }
 
 func (v *Violation) HasFeature(f string) bool {
